@@ -213,17 +213,18 @@ class Piece:
             raise LostAnchor('rule R8 in %s: `let %s = <map>.values()...` not found' % (self.label, var))
         calls, end = self._chain(text, code, m.end())
         names = [c[0] for c in calls]
-        if names != ['values', 'filter', 'map', 'min'] or text[end:end + 1] != ';':
-            raise LostAnchor('rule R8 in %s: chain is %s, expected values/filter/map/min' % (self.label, names))
+        if names[:3] != ['values', 'filter', 'map'] or len(names) != 4 or names[3] not in ('min', 'max') or text[end:end + 1] != ';':
+            raise LostAnchor('rule R8 in %s: chain is %s, expected values/filter/map/(min|max)' % (self.label, names))
+        fold = 'opt_' + names[3]
         fm = re.match(r'\s*\|(\w+)\|\s*(.*)$', calls[1][1], re.S)
         mm = re.match(r'\s*\|(\w+)\|\s*(.*)$', calls[2][1], re.S)
         if not fm or not mm:
             raise LostAnchor('rule R8 in %s: closure shape' % self.label)
         ind = re.match(r'[ \t]*', text[_line_start(text, m.start()):]).group(0)
-        new = ('let mut %s%s = None;\n%sfor (k__r, %s) in %s.iter() {\n%s    if (%s) { let %s = %s; %s = opt_min(%s, %s); }\n%s}'
-               % (var, (': ' + ty) if ty else '', ind, fm.group(1), m.group(1), ind, fm.group(2).strip(), mm.group(1), fm.group(1), var, var, mm.group(2).strip(), ind))
+        new = ('let mut %s%s = None;\n%sfor (k__r, %s) in %s.iter() {\n%s    if (%s) { let %s = %s; %s = %s(%s, %s); }\n%s}'
+               % (var, (': ' + ty) if ty else '', ind, fm.group(1), m.group(1), ind, fm.group(2).strip(), mm.group(1), fm.group(1), var, fold, var, mm.group(2).strip(), ind))
         self.text = text[:m.start()] + new + text[end + 1:]
-        self._fired('R8', 'min of filtered/mapped map values -> loop + opt_min')
+        self._fired('R8', '%s of filtered/mapped map values -> loop + %s' % (names[3], fold))
         return self
 
     def R9(self, var):
@@ -945,12 +946,22 @@ def run_unit(unit, workdir, tier='quick', seeds=(), keep=True):
             if not placed:
                 classes.append([p])
         refuted, rl, twall, tcmds = set(), [], 0.0, []
-        for ci, cl in enumerate(classes):
+
+        def run_twin(arg):
+            ci, cl = arg
             twin = unit.render(twin={p.label for p in cl})
             tpath = os.path.join(workdir, '%s__twin%d.rs' % (unit.name, ci))
             open(tpath, 'w').write(twin)
-            tres = run_verus(tpath, workdir, rlimit=unit.rlimit, edition2024=unit.edition2024)
+            # a small rlimit: "false was not provable within the limit" already means the contract is not vacuous
+            tres = run_verus(tpath, workdir, rlimit=min(unit.rlimit or 10, 4), edition2024=unit.edition2024)
             ta = analyse(unit, twin, tres, twin=True)
+            if not keep:
+                os.unlink(tpath)
+            return ci, ta
+        from concurrent.futures import ThreadPoolExecutor
+        with ThreadPoolExecutor(max_workers=4) as ex:
+            twins = list(ex.map(run_twin, list(enumerate(classes))))
+        for ci, ta in twins:
             for f in ta['failures']:
                 if f['obligation'].endswith('#VACUITY'):
                     refuted.add(f['obligation'].rsplit('::post#VACUITY', 1)[0])
@@ -958,8 +969,6 @@ def run_unit(unit, workdir, tier='quick', seeds=(), keep=True):
             rl += [u for u in ta['undecided'] if 'esource limit' in u or 'rlimit' in u]
             twall += ta['wall_s']
             out['runs'].append({'kind': 'vacuity-twin-%d' % ci, 'verified': ta['verified'], 'errors': ta['errors'], 'wall_s': ta['wall_s'], 'cmd': ta['cmd'], 'smt_ms': ta['smt_ms']})
-            if not keep:
-                os.unlink(tpath)
         vac = [p.full_label() for p in contracted if p.full_label() not in refuted]
         if vac and not rl:
             out['undecided'].append('vacuity guard: `ensures false` verified for %s' % vac)
